@@ -16,6 +16,7 @@ Inductive ores := ONone | OConflict | OOkc | OOther.
 Record tobs := { ob_rts : N; ob_reads : kvs; ob_res : ores }.
 
 Record case := {
+  c_base : N;                 (* the DB was reopened over a store whose maximal version is c_base (0 = fresh) *)
   c_detect : bool;
   c_fps : list (bytes * N);
   c_progs : list tprog;
@@ -64,7 +65,9 @@ Fixpoint all_match (s : sstate) (t : N) (l : list tobs) : bool :=
   end.
 
 Definition agree (c : case) : bool :=
-  let s := Sched.run (tstep true (fp_of (c_fps c)) (the_cfg (c_detect c))) (s_init (prog_of (c_progs c))) (c_sched c) in
+  let s0 := {| s_orc := orc_init (c_base c); s_store := []; s_threads := fun t => PNew (prog_of (c_progs c) t);
+               s_issued := [] |} in
+  let s := Sched.run (tstep true (fp_of (c_fps c)) (the_cfg (c_detect c))) s0 (c_sched c) in
   all_match s 0 (c_obs c) &&
   forallb (fun d => dump_eqb (model_dump (s_store s) (fst d)) (snd d)) (c_dumps c).
 
@@ -115,6 +118,6 @@ Definition K (s : string) : bytes := unhex s.
 Definition Pg (reads : list bytes) (ws : kvs) : tprog := {| p_reads := reads; p_writes := ws |}.
 Definition Ob (r : N) (reads : kvs) (res : ores) : tobs := {| ob_rts := r; ob_reads := reads; ob_res := res |}.
 Definition Dm (k : string) (l : list (N * option bytes)) := (unhex k, l).
-Definition Cs (d : bool) (f : list (bytes * N)) (p : list tprog) (sc : list N) (o : list tobs)
+Definition Cs (b : N) (d : bool) (f : list (bytes * N)) (p : list tprog) (sc : list N) (o : list tobs)
               (dm : list (bytes * list (N * option bytes))) : case :=
-  {| c_detect := d; c_fps := f; c_progs := p; c_sched := sc; c_obs := o; c_dumps := dm |}.
+  {| c_base := b; c_detect := d; c_fps := f; c_progs := p; c_sched := sc; c_obs := o; c_dumps := dm |}.
